@@ -195,7 +195,11 @@ def model_check(mdl, op, sts, val, fragment):
     if k == 'attr_read':
         if code != 0 or val is None:
             return 'get attribute refused: %r' % (sts,)
-        return None if bytes(bytearray(val)) == M.wire(exp['type'], exp['data']) else 'get attribute data differs'
+        try:
+            raw = bytes(bytearray(val))
+        except (TypeError, ValueError):
+            return 'get attribute result is not the attribute\'s bytes: %r' % (val,)
+        return None if raw == M.wire(exp['type'], exp['data']) else 'get attribute data differs'
     if k == 'attr_write':
         if code != 0:
             return 'set attribute refused: %r' % (sts,)
@@ -214,7 +218,7 @@ def model_check(mdl, op, sts, val, fragment):
 _INITIAL = {}
 
 
-def run_setting(srv, ops, fragment, depth, multiple):
+def run_setting(srv, ops, fragment, depth, multiple, cops=None):
     """-> (results [(status, value)], bundles [(n, route, send, [req ids])], reqids, error)"""
     from cpppo.server.enip import client
     import os
@@ -224,7 +228,8 @@ def run_setting(srv, ops, fragment, depth, multiple):
         _INITIAL['values'] = {s['name']: list(srv.values(s['name'])) for s in SPECS}
     for name, vals in _INITIAL['values'].items():
         srv.set_values(name, list(vals))
-    cops = [client_op(op, fragment) for op in ops]
+    if cops is None:
+        cops = [client_op(op, fragment) for op in ops]
     bundles = []
     with client.connector(host=srv.address[0], port=srv.address[1], timeout=10.0) as conn:
         orig = conn.multiple
@@ -270,8 +275,10 @@ def pred_settings(case, stats):
 
     for fragment in (False, True):
         baseline = None
+        # one materialised operation list per fragment mode, issued again under every setting (a caller's list is not consumed)
+        shared = [client_op(op, fragment) for op in ops]
         for depth, multiple in case['settings']:
-            results, bundles, reqids, cops, err = run_setting(srv, ops, fragment, depth, multiple)
+            results, bundles, reqids, cops, err = run_setting(srv, ops, fragment, depth, multiple, cops=shared)
             tag = {'fragment': fragment, 'depth': depth, 'multiple': multiple}
             if err is not None:
                 stats.fail('settings', 'client-raised', case, observed=dict(tag, error=err, results=len(results)),
